@@ -66,3 +66,71 @@ impl<K: VKey> BitSet<K> {
         self.bits
     }
 }
+
+/// element references for `BitSet<u64>` (the keys themselves are not stored: references point
+/// into a constant table)
+static SMALL: [u64; 64] = {
+    let mut t = [0u64; 64];
+    let mut i = 0;
+    while i < 64 {
+        t[i] = i as u64;
+        i += 1;
+    }
+    t
+};
+impl BitSet<u64> {
+    pub fn first(&self) -> Option<&u64> {
+        if self.bits == 0 {
+            None
+        } else {
+            Some(&SMALL[self.bits.trailing_zeros() as usize])
+        }
+    }
+    pub fn last(&self) -> Option<&u64> {
+        if self.bits == 0 {
+            None
+        } else {
+            Some(&SMALL[63 - self.bits.leading_zeros() as usize])
+        }
+    }
+    /// ascending order, like BTreeSet
+    pub fn iter(&self) -> BitIter {
+        BitIter { bits: self.bits }
+    }
+    pub fn retain<F: FnMut(&u64) -> bool>(&mut self, mut f: F) {
+        let mut it = self.iter();
+        while let Some(k) = it.next() {
+            if !f(k) {
+                self.bits &= !(1u64 << *k);
+            }
+        }
+    }
+}
+pub struct BitIter {
+    bits: u64,
+}
+impl Iterator for BitIter {
+    type Item = &'static u64;
+    fn next(&mut self) -> Option<&'static u64> {
+        if self.bits == 0 {
+            return None;
+        }
+        let i = self.bits.trailing_zeros() as usize;
+        self.bits &= !(1u64 << i);
+        Some(&SMALL[i])
+    }
+}
+impl<'a> IntoIterator for &'a BitSet<u64> {
+    type Item = &'static u64;
+    type IntoIter = BitIter;
+    fn into_iter(self) -> BitIter {
+        self.iter()
+    }
+}
+impl IntoIterator for BitSet<u64> {
+    type Item = u64;
+    type IntoIter = core::iter::Copied<BitIter>;
+    fn into_iter(self) -> Self::IntoIter {
+        self.iter().copied()
+    }
+}
